@@ -279,9 +279,10 @@ static void op_gcalt(const Args& a) {
         badx("geocoords-alt-roundtrip", buf);
       }
       // and it is the same point on the ground (grid distance / scale >= ground distance to first order)
-      double dlat = (h.Latitude() - lat) * 111.2e3, dlon = std::remainder(h.Longitude() - lon, 360.0) * 111.4e3 * std::cos(lat * Math::degree());
-      if (!(std::hypot(dlat, dlon) <= 1.5 * tol / std::min(1.0, g.AltScale()) + 1e-6)) {
-        std::snprintf(buf, sizeof buf, "'%s' is %.3g m away from (%.17g, %.17g)", s.c_str(), std::hypot(dlat, dlon), lat, lon);
+      // geodesic distance (a planar lat/lon formula is useless next to a pole, where the re-parsed point may be the pole itself)
+      double gd = 0; Geodesic::WGS84().Inverse(lat, lon, h.Latitude(), h.Longitude(), gd);
+      if (!(gd <= 1.5 * tol / std::min(1.0, g.AltScale()) + 1e-6)) {
+        std::snprintf(buf, sizeof buf, "'%s' is %.3g m away from (%.17g, %.17g)", s.c_str(), gd, lat, lon);
         badx("geocoords-alt-roundtrip", buf);
       }
     }
